@@ -3,8 +3,11 @@ from spec import H, KaniUnit, Property, VerusUnit
 CM = "mithril-stm/src/membership_commitment/merkle_tree/commitment.rs"
 TR = "mithril-stm/src/membership_commitment/merkle_tree/tree.rs"
 COMP = "for every non-empty sorted selection: verify_leaves_membership_from_batch_path(selected, compute_merkle_tree_batch_path(selection)) is Ok (real generic code at an ideal hash)"
-SOUND = "arbitrary MerkleBatchPath (symbolic values / indices) and claimed leaves: Ok ==> indices strictly increasing, < n, claimed[j] == leaves[indices[j]]"
+SOUND = "arbitrary MerkleBatchPath of the stated shape (symbolic path values, concrete wire indices) and symbolic claimed leaves: Ok ==> indices strictly increasing, < n, claimed[j] == leaves[indices[j]]"
 FN = ["MerkleTree::new", "MerkleTree::compute_merkle_tree_batch_path", "MerkleTree::to_merkle_tree_batch_commitment", "MerkleTreeBatchCommitment::verify_leaves_membership_from_batch_path", "parent", "sibling", "left_child", "right_child"]
+SOUND_SHAPES = ["n2_k1_v1_i0", "n2_k1_v1_i1", "n2_k1_v1_i2", "n2_k1_v0_i0", "n2_k1_v2_i1", "n2_k2_v0_i01", "n2_k2_v0_i10", "n2_k2_v0_i00", "n2_k2_v0_i11", "n2_k2_v0_i02",
+                "n2_k2_v2_i00", "n2_k2_v2_i11", "n2_k2_v1_i01", "n3_k1_v2_i0", "n3_k1_v2_i2", "n3_k1_v1_i2", "n3_k1_v2_i3", "n3_k2_v1_i01", "n3_k2_v1_i23", "n3_k2_v2_i02", "n3_k2_v3_i22"]
+QUICK_SOUND = ["n2_k1_v1_i0", "n2_k1_v1_i2", "n2_k2_v0_i01", "n2_k2_v0_i10", "n2_k2_v0_i00", "n2_k2_v2_i00"]
 PROP = Property(
     "C09", "proof",
     kani=[KaniUnit(
@@ -12,17 +15,17 @@ PROP = Property(
         cbmc_args=["--unwindset", "memcmp.0:34"],  # Vec<usize> / Vec<u8> equality of up to 4 indices compiles to memcmp over up to 32 bytes
         attach=[(CM, "contracts/mithril-stm/c09_merkle.rs", "verif_c09")],
         anchors=[(CM, "verify_leaves_membership_from_batch_path", None), (TR, "compute_merkle_tree_batch_path", None), (TR, "new", "MerkleTree<D, L>")],
-        harnesses=[H("c09_completeness_n%d_m%d" % sh, "bounded", COMP, FN, bound="n = %d leaves (symbolic bytes), selection mask %d" % sh, replay="none", timeout=900,
-                     tier=("thorough" if sh[0] == 4 else "quick")) for sh in [(1, 1), (2, 1), (2, 2), (2, 3), (3, 1), (3, 2), (3, 3), (3, 4), (3, 5), (3, 6), (3, 7), (4, 5), (4, 10), (4, 15)]]
-        + [H("c09_soundness_n%d_k%d_v%d" % sh, "bounded", SOUND, FN, bound="n = %d leaves, %d claimed leaves, %d path values (all symbolic), wire indices < 8" % sh, replay="none", timeout=900,
-             tier=("thorough" if sh in [(3, 2, 2), (3, 1, 3)] else "quick")) for sh in [(2, 1, 0), (2, 1, 1), (2, 1, 2), (2, 2, 0), (2, 2, 1), (3, 1, 1), (3, 1, 2), (3, 1, 3), (3, 2, 0), (3, 2, 1), (3, 2, 2)]]
+        harnesses=[H("c09_completeness_n%d_m%d" % sh, "bounded", COMP, FN, bound="n = %d leaves (symbolic bytes), selection mask %d" % sh, replay="none", timeout=1500,
+                     tier=("quick" if sh in [(1, 1), (2, 1), (2, 2), (2, 3)] else "thorough")) for sh in [(1, 1), (2, 1), (2, 2), (2, 3), (3, 1), (3, 2), (3, 3), (3, 4), (3, 5), (3, 6), (3, 7), (4, 5), (4, 10), (4, 15)]]
+        + [H("c09_soundness_%s" % nm, "bounded", SOUND, FN, bound="shape %s: n leaves, k claimed leaves, v path values, wire indices concrete; leaf bytes / claimed leaves / path values symbolic" % nm, replay="none", timeout=1500,
+             tier=("quick" if nm in QUICK_SOUND else "thorough")) for nm in SOUND_SHAPES]
         )],
     verus=[VerusUnit("heap_index", "verus/C09/heap_index.tmpl.rs",
                      "extracted parent/left_child/right_child/sibling: parent(left_child(i)) == parent(right_child(i)) == i, sibling involutive, siblings share their parent, parity <=> left/right child, no overflow below usize::MAX/2; leaf layout lemma",
                      ["merkle_tree::parent", "merkle_tree::left_child", "merkle_tree::right_child", "merkle_tree::sibling"])],
     assumptions=[
         "hash = ideal (collision-free, memoised) function: the real generic tree/commitment code is executed at this Digest implementation; Blake2b itself is not verified",
-        "tree size bounded (n <= 3 quick, n = 4 thorough), one harness per concrete shape (selection resp. number of claimed leaves / path values), contents symbolic; wire indices < 8 (overflow of `i + next_power_of_two - 1` for huge indices is a C05 matter)",
+        "tree size bounded (n <= 2 quick, n <= 4 thorough), one harness per concrete shape (selection resp. number of claimed leaves / path values), contents symbolic; wire indices < 8 (overflow of `i + next_power_of_two - 1` for huge indices is a C05 matter)",
         "generic Merkle tree / nested map in internal/mithril-merkle-tree delegate to ckb-merkle-mountain-range (external algorithm): NOT under contract here; MKProof/MKMapProof linking rules are not decided in this unit",
         "to_cbor_bytes (error decoration only) stubbed",
     ],
